@@ -123,7 +123,14 @@ func NewWorld(prop string, max, min int, st *vlib.Stats) *World {
 			}
 			w.tablesOpenedInCall++
 			w.takeFromQueue(players, "new-table")
-			w.Tables[id] = append([]string{}, players...)
+			// the table keeps the very list it was handed and appends to it later
+			// (what the repository's own tests do); a regulator whose lists share
+			// storage with each other or with its queue is found out by the names
+			if w.NoLend {
+				w.Tables[id] = append([]string{}, players...)
+			} else {
+				w.Tables[id] = players
+			}
 			return id, nil
 		}),
 		regulator.WithAssignPlayersFn(func(id string, players []string) error {
